@@ -128,6 +128,10 @@ func (its *document) patchEach(op jsondiff.Operation) errors.OrdaError {
 		return err
 	}
 	// its.L().Infof("target:%#v key:%v", target, key)
+	if t := target.getType(); t != TypeJSONObject && t != TypeJSONArray {
+		// the path leads through a value that has no members
+		return errors.DatatypeInvalidPatch.New(its.L(), "not an object or an array: "+op.String())
+	}
 	switch op.Type {
 	case jsondiff.OperationAdd:
 		if op.Value == nil {
